@@ -162,12 +162,17 @@ fn failed_block(state: &State, enum_name: &Ident, func_name: &Ident) -> TokenStr
                 Fields::Unit => quote! {},
             };
             let variant_ident = &variant.ident;
+            let (enum_name_str, variant_str, func_name_str) = (
+                enum_name.to_string(),
+                variant_ident.to_string(),
+                func_name.to_string(),
+            );
             let error = quote! {
                 derive_more::TryUnwrapError::<_>::new(
                     val,
-                    stringify!(#enum_name),
-                    stringify!(#variant_ident),
-                    stringify!(#func_name),
+                    #enum_name_str,
+                    #variant_str,
+                    #func_name_str,
                 )
             };
             quote! {
